@@ -401,7 +401,12 @@ func newWorld(sc *scenario) world {
 
 // ---------- scripted runner ----------
 
-const stallTimeout = 8 * time.Second
+const stallTimeout = 5 * time.Second
+
+// after a few stalled cases the rest of the run is skipped (each stall costs stallTimeout; the failure is already reported)
+var stalls int
+
+const maxStalls = 3
 
 // runScenario returns the observation after every arrival and the first oracle complaint.
 func runScenario(sc *scenario) (seen [][]int64, fail string) {
@@ -550,7 +555,14 @@ func (sc *scenario) coq(seen [][]int64) string {
 }
 
 func emit(cf *vx.CasesFile, st *vx.Stats, sc *scenario) {
+	if stalls >= maxStalls {
+		st.Count("skipped-after-stalls")
+		return
+	}
 	seen, fail := runScenario(sc)
+	if strings.Contains(fail, "neither returned nor parked on a condition variable within") {
+		stalls++
+	}
 	cf.Add(sc.coq(seen))
 	parts := []string{sc.Kind}
 	blocked := false
